@@ -238,7 +238,9 @@ def rule_E7(ctx, functions=None, only_keys=None):
         if functions and f.qualname not in functions:
             continue
         fg = None
-        for n in ast.walk(f.node):
+        earlier = {}   # (var, key) -> statements of earlier unguarded dereferences
+        for n in sorted((x for x in ast.walk(f.node) if hasattr(x, "_ord")),
+                        key=lambda x: x._ord):
             if not (isinstance(n, ast.Subscript) and isinstance(n.ctx, ast.Load)
                     and isinstance(n.slice, ast.Constant) and n.slice.value in optkeys
                     and isinstance(n.value, ast.Name)):
@@ -263,6 +265,28 @@ def rule_E7(ctx, functions=None, only_keys=None):
                 or (a[0] == "truthy" and a[1].replace('"', "'") == "%s[%r]" % (var, key))
                 for a in atoms)
             stored = _dominating_store(f, n, var, key)
+            st_ = _stmt(n)
+            def _same_entry(e_):
+                # the variable is not re-bound (and the key not removed) in between
+                for x in ast.walk(f.node):
+                    if not (hasattr(x, "_ord") and e_._ord < x._ord < n._ord):
+                        continue
+                    if isinstance(x, ast.Assign) and any(
+                            isinstance(t, ast.Name) and t.id == var for t in x.targets):
+                        return False
+                    if isinstance(x, ast.Call) and callee_name(x) == "pop" and isinstance(
+                            x.func, ast.Attribute) and isinstance(x.func.value, ast.Name) and \
+                            x.func.value.id == var:
+                        return False
+                return True
+            if not (present or stored) and any(
+                    _dominates(e_, st_) and _same_entry(e_)
+                    for e_ in earlier.get((var, key), [])):
+                # every path to this read has already read the same key of the same entry
+                res.holds(inst, "reached only after an earlier read of %s[%r]" % (var, key))
+                continue
+            if not (present or stored):
+                earlier.setdefault((var, key), []).append(st_)
             if present or stored:
                 res.holds(inst)
             elif (f.qualname, con) in reviewed:
